@@ -12,6 +12,7 @@ from typing_extensions import Self
 
 from bloqade.shuttle.arch import ArchSpecInterpreter
 from bloqade.shuttle.dialects import action
+from bloqade.shuttle.rewrite.desugar import DesugarTurnOffRewrite, DesugarTurnOnRewrite
 
 
 class AbstractAction(abc.ABC):
@@ -189,11 +190,17 @@ class ActionTracer(MethodTable):
         x_tone_indices = frame.get(stmt.x_tones)
         y_tone_indices = frame.get(stmt.y_tones)
 
+        # the recorded slice/list form has to be the form of the values actually
+        # selected; the statement type only reflects what was known statically.
+        is_on = issubclass(self.intensity_actions[type(stmt)], TurnOnAction)
+        stmt_type = (
+            DesugarTurnOnRewrite if is_on else DesugarTurnOffRewrite
+        ).get_stmt_type(
+            isinstance(x_tone_indices, slice), isinstance(y_tone_indices, slice)
+        )
+
         interp.trace.append(
-            self.intensity_actions[type(stmt)](
-                x_tone_indices if isinstance(x_tone_indices, slice) else x_tone_indices,
-                y_tone_indices if isinstance(y_tone_indices, slice) else y_tone_indices,
-            )
+            self.intensity_actions[stmt_type](x_tone_indices, y_tone_indices)
         )
         interp.trace.append(WayPointsAction(way_points=[interp.curr_pos]))
         return ()
